@@ -9,6 +9,10 @@ import (
 
 type MixedNode struct {
 	baseNode
+
+	// isJsonTypeDeclared true when the JSON type is the one named by the "type"
+	// rule of the rule-set, false while it is the type of the borrowed EXAMPLE.
+	isJsonTypeDeclared bool
 }
 
 var _ Node = &MixedNode{}
@@ -26,9 +30,18 @@ func (*MixedNode) SetRealType(string) bool {
 	return true
 }
 
-// SetJsonType for mixed node n.baseNode.jsonType is an EXAMPLE type
+// SetJsonType for mixed node n.baseNode.jsonType is an EXAMPLE type, until the
+// "type" rule of the rule-set declares another one.
 func (n *MixedNode) SetJsonType(t json.Type) {
 	n.setJsonType(t)
+	n.isJsonTypeDeclared = true
+}
+
+// IsJsonTypeDeclared returns true when the JSON type of the node was declared by
+// the "type" rule of the rule-set ({type: "integer", min: 1}), and false when it
+// is the type of the EXAMPLE the "or" rule is written on ({min: 1}, {enum: [1, 2]}).
+func (n *MixedNode) IsJsonTypeDeclared() bool {
+	return n.isJsonTypeDeclared
 }
 
 func (*MixedNode) Grow(lexeme.LexEvent) (Node, bool) {
